@@ -1002,6 +1002,16 @@ impl Opcode for SLoad {
         let storage = vm.state()?.storage_mut();
         let result = storage.load(&key);
 
+        // The load wraps the stored value together with its key, so the result can be larger
+        // than anything an instruction produced before it (twice the key, for a slot that was
+        // never written); it is subject to the size limit like any other result
+        let result = RSV::new(
+            result.instruction_pointer(),
+            result.data().clone(),
+            result.provenance(),
+            Some(vm.config().value_size_limit),
+        );
+
         // Write it into the stack
         vm.stack_handle()?.push(result)?;
 
